@@ -1299,7 +1299,7 @@ func checkC20(P *Prog, r *Result) {
 		}
 	}
 	r.floor("C20/predicate", 22)
-	r.floor("C20/regexp-language", 2)
+	r.floor("C20/regexp-language", 1) // (one of the two patterns may be replaced by hand-written code, which C20/predicate then has to answer for)
 	// A kind whose subject type has its own documented predicate (time: instants compared with Equal, not ==)
 	// must not build that test from the generic constructor: `p.EQ[time.Time](t)` compiles — time.Time is
 	// comparable — and compares wall clock, location and monotonic reading. Every instantiation of a generic
